@@ -12,9 +12,17 @@
                   <vertical> <decimals> <ils?> <segH?> <segW?> <textH?>
     graphic <minx> <miny> <maxx> <maxy> plain|cat <legend arguments as above>
     fmt <x> <n>                                            -> `'%.nf' % x`
+    crhist <cont> <nc> (r g b)*nc <k> d*k <nops> op*       -> `ok || out || out ...` (one per op)
+        op: c <cols> | d <dom> | r <v> | s | u
+    lhist plain <min?> ... <textH?> <nops> op*  |  lhist cat <k> d*k ... <textH?> <nops> op*
+        (parameter arguments as for `legend`, without the values)
+        op: sp <field> | sl <field> | b <vals> | g <x0> <y0> <x1> <y1> <vals> | ol | op | dp | dl | tp | tl
+        field: min|max|sh|sw|th <rat?> | count|dc <nat?> | cols <none | list> | cl|vert|ils|cc <bool?>
+               | ord <none | k (key text)*k> | dom <list> | names <none | list> | bad <attribute>
 -/
 import Ladybug.DrvCore
 import Ladybug.Model.Legend
+import Ladybug.Model.C15Obj
 
 open Drv Col Leg
 
@@ -174,8 +182,191 @@ def box? (a b c d : String) : Option (Rat × Rat × Rat × Rat) := do
   let d ← rat? d
   pure (a, b, c, d)
 
+/-! ### histories on one object (round 3) -/
+
+open Obj15
+
+def showRej : Rej → String
+  | .assert => "X:assert" | .attr => "X:attr" | .zero => "X:zero" | .index => "X:index"
+  | .value => "X:value" | .type => "X:type"
+
+def pCROp : P CROp := do
+  match (← tok) with
+  | "c" => pure (.setColors (← pList pRGB))
+  | "d" => pure (.setDomain (← pList pRat))
+  | "r" => pure (.readColor (← pRat))
+  | "s" => pure .readState
+  | "u" => pure .duplicate
+  | _ => lift none
+
+def showCROut : CROut → String
+  | .done => "ok"
+  | .refused e => showRej e
+  | .color (.ok c) => showRGB c
+  | .color (.error e) => "E:" ++ (showErr e).drop 4
+  | .state cols dom cont => s!"S {showColors cols} : {showRats dom} : {showBool cont}"
+
+def pOrd : P (Option (List (Int × String))) :=
+  pOpt (pList (do let k ← pInt; let t ← tok; pure (k, t)))
+
+def pField : P Field := do
+  match (← tok) with
+  | "min" => pure (.min (← pOpt pRat))
+  | "max" => pure (.max (← pOpt pRat))
+  | "count" => pure (.count (← pOpt pNat))
+  | "cols" => pure (.colors (← pOpt (pList pRGB)))
+  | "cl" => pure (.contLegend (← pOpt pBool))
+  | "vert" => pure (.vertical (← pOpt pBool))
+  | "dc" => pure (.decimals (← pOpt pNat))
+  | "ils" => pure (.ils (← pOpt pBool))
+  | "ord" => pure (.ordinal (← pOrd))
+  | "sh" => pure (.segH (← pOpt pRat))
+  | "sw" => pure (.segW (← pOpt pRat))
+  | "th" => pure (.textH (← pOpt pRat))
+  | "dom" => pure (.catDomain (← pList pRat))
+  | "names" => pure (.catNames (← pOpt (pList tok)))
+  | "cc" => pure (.catCC (← pOpt pBool))
+  | "bad" => pure (.bad (← tok))
+  | _ => lift none
+
+def pLOp : P LOp := do
+  match (← tok) with
+  | "sp" => pure (.setP (← pField))
+  | "sl" => pure (.setL (← pField))
+  | "b" => pure (.build (← pList pRat))
+  | "g" => do
+    let x0 ← pRat
+    let y0 ← pRat
+    let x1 ← pRat
+    let y1 ← pRat
+    pure (.buildG x0 y0 x1 y1 (← pList pRat))
+  | "ol" => pure .obsL
+  | "op" => pure .obsP
+  | "dp" => pure .dupP
+  | "dl" => pure .dupL
+  | "tp" => pure .dictP
+  | "tl" => pure .dictL
+  | _ => lift none
+
+def pPlainArgs : P (Except Err Par) := do
+  let mn ← pOpt pRat
+  let mx ← pOpt pRat
+  let sc ← pOpt pNat
+  let cols ← pOpt (pList pRGB)
+  let cl ← pBool
+  let vert ← pBool
+  let dc ← pNat
+  let ils ← pBool
+  let ord ← pOrd
+  let sh ← pOpt pRat
+  let sw ← pOpt pRat
+  let th ← pOpt pRat
+  pure (Par.mkPlain mn mx sc cols cl vert dc ils ord sh sw th)
+
+def pCatArgs : P (Except Err Par) := do
+  let dom ← pList pRat
+  let cols ← pList pRGB
+  let names ← pOpt (pList tok)
+  let cc ← pOpt pBool
+  let cl ← pBool
+  let vert ← pBool
+  let dc ← pNat
+  let ils ← pOpt pBool
+  let sh ← pOpt pRat
+  let sw ← pOpt pRat
+  let th ← pOpt pRat
+  pure (Par.mkCat dom cols names cc cl vert dc ils sh sw th)
+
+def showObs (o : Live) : String :=
+  match o.legend? with
+  | none => "unreadable"
+  | some l =>
+    " | ".intercalate [
+      s!"L {showRat l.min} {showRat l.max} {l.segCount} {showBool l.isMinDefault} {showBool l.isMaxDefault}",
+      showRats l.segmentNumbers,
+      showE showColors l.segmentColors,
+      showE showColors l.valueColors,
+      ";".intercalate l.segmentText,
+      toString l.textPoints.length,
+      toString l.segmentLength,
+      showE showMesh l.mesh,
+      showE (fun cr => showRats cr.domain ++ " : " ++ showColors cr.colors ++ " : " ++ showBool cr.continuous)
+        l.colorRange]
+
+def showOptRat (x : Option Rat) : String :=
+  match x with
+  | none => "none"
+  | some r => showRat r
+
+def showPar (p : Par) : String :=
+  let ord := match p.ordinal with
+    | none => "none"
+    | some d => "{" ++ ",".intercalate (d.map fun kv => toString kv.1 ++ ":" ++ kv.2) ++ "}"
+  let cat := match p.cat with
+    | none => "none"
+    | some c =>
+      let names := match c.names with
+        | some ns => ns
+        | none => catNames c.domain p.decimalCount p.includeLS
+      showRats c.domain ++ " : " ++ ";".intercalate names ++ " : " ++ showBool c.continuousColors
+  " | ".intercalate [
+    s!"P {showOptRat p.min} {showOptRat p.max} {p.segCount} {showBool p.segCountDefault}",
+    showColors p.colors,
+    s!"{showBool p.continuousLegend} {showBool p.vertical} {p.decimalCount} {showBool p.includeLS}",
+    ord,
+    s!"{showOptRat p.segHeight} {showOptRat p.segWidth} {showOptRat p.textHeight}",
+    cat]
+
+def showLOut (s : Sess) : LOut → String
+  | .done => "ok"
+  | .refused e => showRej e
+  | .nolegend => "nolegend"
+  | .params p => showPar p
+  | .legend _ =>
+    match s.live with
+    | some o => showObs o
+    | none => "nolegend"
+
+/-- Run a session, showing each output against the state it was produced in. -/
+def showLRun (s : Sess) : List LOp → List String
+  | [] => []
+  | op :: ops =>
+    let r := lStep s op
+    showLOut r.1 r.2 :: showLRun r.1 ops
+
+def runLHist (r : Option (Except Err Par × List String)) : String :=
+  match r with
+  | none => "bad-op"
+  | some (.error e, _) => showErr e
+  | some (.ok p, rest) =>
+    let q : P (List LOp) := do
+      let ops ← pList pLOp
+      pEnd
+      pure ops
+    match q rest with
+    | none => "bad-op"
+    | some (ops, _) => " || ".intercalate ("ok" :: showLRun ⟨p, none⟩ ops)
+
+def runCRHist (rest : List String) : String :=
+  let q : P (Bool × List RGB × List Rat × List CROp) := do
+    let cont ← pBool
+    let cols ← pList pRGB
+    let dom ← pList pRat
+    let ops ← pList pCROp
+    pEnd
+    pure (cont, cols, dom, ops)
+  match q rest with
+  | none => "bad-op"
+  | some ((cont, cols, dom, ops), _) =>
+    match ColorRange.make cols dom cont with
+    | .error e => showErr e
+    | .ok cr => " || ".intercalate ("ok" :: (crRun cr ops).2.map showCROut)
+
 def handle (toks : List String) : String :=
   match toks with
+  | "crhist" :: rest => runCRHist rest
+  | "lhist" :: "plain" :: rest => runLHist (pPlainArgs rest)
+  | "lhist" :: "cat" :: rest => runLHist (pCatArgs rest)
   | "domain" :: rest =>
     let p : P (Bool × Nat × List Rat) := do
       let cont ← pBool
